@@ -51,6 +51,28 @@ def _message_only(par, node):
     return False
 
 
+def const_values(func, e):
+    """Constant string values expression e can take: a constant, or a local all of whose assignments are string constants."""
+    if isinstance(e, ast.Constant):
+        return [e.value]
+    if isinstance(e, ast.Name) and e.id not in func.all_params:
+        vals = []
+        for n in walk_body(func):
+            if isinstance(n, ast.Assign) and any(isinstance(t, ast.Name) and t.id == e.id for t in n.targets):
+                if isinstance(n.value, ast.Constant) and isinstance(n.value.value, str):
+                    vals.append(n.value.value)
+                elif isinstance(n.value, ast.IfExp) and all(isinstance(x, ast.Constant) and isinstance(x.value, str) for x in (n.value.body, n.value.orelse)):
+                    vals += [n.value.body.value, n.value.orelse.value]
+                else:
+                    return None
+            elif isinstance(n, (ast.For, ast.comprehension, ast.AugAssign, ast.withitem, ast.NamedExpr)):
+                tg = getattr(n, "target", None) or getattr(n, "optional_vars", None)
+                if tg is not None and any(isinstance(x, ast.Name) and x.id == e.id for x in ast.walk(tg)):
+                    return None
+        return vals or None
+    return None
+
+
 def reads_on_names(func, names, objlabel, calls, depth=0, via=()):
     """Reads performed in `func` on any local in `names` (aliases of the object), following helpers."""
     out = []
@@ -70,8 +92,9 @@ def reads_on_names(func, names, objlabel, calls, depth=0, via=()):
         if isinstance(n, ast.Call):
             fn = n.func
             if isinstance(fn, ast.Attribute) and isinstance(fn.value, ast.Name) and fn.value.id in names:
-                key = const_of(n.args[0]) if n.args else None
-                out.append(Read(func, fn.attr, key, n, objlabel, _message_only(par, n), via))
+                keys = const_values(func, n.args[0]) if n.args else None
+                for key in (keys or [None]):
+                    out.append(Read(func, fn.attr, key, n, objlabel, _message_only(par, n), via))
                 continue
             args = list(n.args) + [k.value for k in n.keywords]
             hit = [i for i, a in enumerate(args) if isinstance(a, ast.Name) and a.id in names]
@@ -115,11 +138,13 @@ def reads_on_names(func, names, objlabel, calls, depth=0, via=()):
                 elif t.kind in ("ext",):
                     out.append(Read(func, "call:" + t.name, None, n, objlabel, _message_only(par, n), via))
         elif isinstance(n, ast.Subscript) and isinstance(n.value, ast.Name) and n.value.id in names and isinstance(n.ctx, ast.Load):
-            out.append(Read(func, "getitem", const_of(n.slice), n, objlabel, _message_only(par, n), via))
+            for key in (const_values(func, n.slice) or [None]):
+                out.append(Read(func, "getitem", key, n, objlabel, _message_only(par, n), via))
         elif isinstance(n, ast.Compare) and any(isinstance(o, (ast.In, ast.NotIn)) for o in n.ops):
             for c in n.comparators:
                 if isinstance(c, ast.Name) and c.id in names:
-                    out.append(Read(func, "in", const_of(n.left), n, objlabel, False, via))
+                    for key in (const_values(func, n.left) or [None]):
+                        out.append(Read(func, "in", key, n, objlabel, False, via))
         elif isinstance(n, (ast.For, ast.comprehension)) and isinstance(n.iter, ast.Name) and n.iter.id in names:
             out.append(Read(func, "iter", None, n.iter, objlabel, False, via))
         elif isinstance(n, ast.Dict):
